@@ -167,11 +167,11 @@ def gen_annotations(rng, quick):
         if t not in seen:
             seen.add(t)
             trees.append(t)
-    per_shape = 5 if quick else 40
+    per_shape = 5 if quick else 36
     for n in range(1, 6):
         for shape in forests(n, 4):
             k = n_leaves(shape)
-            if n <= 3 or (not quick and 6 ** k <= 216):
+            if n <= 3:
                 for lab in itertools.product(BASE, repeat=k):
                     add(fill(shape, lab))
             else:
@@ -293,13 +293,13 @@ class Plan:
         for a in atoms:
             for b in atoms:
                 self._pair(a, b)
-        n2 = 220 if quick else 1200
+        n2 = 220 if quick else 800
         for _ in range(n2):
             a = rng.choice(pool2) if rng.random() < 0.75 else rng.choice(atoms)
             b = rng.choice(pool2) if rng.random() < 0.75 else rng.choice(atoms)
             self._pair(a, b)
         if not quick:
-            for _ in range(1000):
+            for _ in range(700):
                 self._pair(gen_clean_query(rng, 3), gen_clean_query(rng, rng.randint(1, 3)))
         # -- triples
         tri_atoms = atoms if not quick else [atoms[i] for i in (0, 1, 2, 3, 6, 9, 12, 14)]
@@ -309,10 +309,10 @@ class Plan:
                     if rng.random() < (0.45 if quick else 0.6):
                         continue
                     self._triple(a, b, c)
-        for _ in range(220 if quick else 1000):
+        for _ in range(220 if quick else 700):
             self._triple(*[rng.choice(pool2) if rng.random() < 0.6 else rng.choice(atoms) for _ in range(3)])
         if not quick:
-            for _ in range(600):
+            for _ in range(500):
                 self._triple(*[gen_clean_query(rng, rng.randint(1, 3)) for _ in range(3)])
         # -- term-level queries whose meaning the property / the QueryHandler docstring spell out
         term_atoms = [a for a in atoms if a[0] == "t"]
@@ -322,7 +322,7 @@ class Plan:
             for b in term_atoms:
                 for form in ("desc", "ex", "ex0"):
                     self.group2.append((self.add((form, ("and", a, b))), form, atom_mode(a), atom_mode(b)))
-        for _ in range(150 if quick else 1200):
+        for _ in range(150 if quick else 600):
             a1, a2, b = (rng.choice(term_atoms) for _ in range(3))
             self.union.append((self.add(("and", ("or", a1, a2), b)), [atom_mode(a1), atom_mode(a2)], atom_mode(b)))
             self.union.append((self.add(("and", b, ("or", a1, a2))), [atom_mode(a1), atom_mode(a2)], atom_mode(b)))
